@@ -446,24 +446,24 @@ def mon_c18(hs, prev, op, ok, trace, cur, known):
 import monitors2 as M2
 
 HISTORY_MONITORS = {
-    'C01': [M2.mon_c01],
-    'C02': [M2.mon_c02],
-    'C03': [M2.mon_c03],
-    'C04': [M2.mon_c04],
-    'C05': [M2.mon_c05],
-    'C06': [M2.mon_c06],
-    'C07': [M2.mon_c07],
-    'C08': [M2.mon_c08],
-    'C09': [M2.mon_c09, M2.mon_c09_probes, M2.mon_c09_withdraw],
-    'C13': [M2.mon_c13],
-    'C14': [M2.mon_c14],
-    'C15': [M2.mon_c15],
-    'C16': [M2.mon_c16],
-    'C19': [M2.mon_c19],
+    'C01': [M2.guarded(M2.mon_c01)],
+    'C02': [M2.guarded(M2.mon_c02)],
+    'C03': [M2.guarded(M2.mon_c03)],
+    'C04': [M2.guarded(M2.mon_c04)],
+    'C05': [M2.guarded(M2.mon_c05)],
+    'C06': [M2.guarded(M2.mon_c06)],
+    'C07': [M2.guarded(M2.mon_c07)],
+    'C08': [M2.guarded(M2.mon_c08)],
+    'C09': [M2.guarded(M2.mon_c09), M2.guarded(M2.mon_c09_probes), M2.guarded(M2.mon_c09_withdraw)],
+    'C13': [M2.guarded(M2.mon_c13)],
+    'C14': [M2.guarded(M2.mon_c14)],
+    'C15': [M2.guarded(M2.mon_c15)],
+    'C16': [M2.guarded(M2.mon_c16)],
+    'C19': [M2.guarded(M2.mon_c19)],
     'C18': [mon_c18],
     'C10': [mon_c10, mon_rejected_unchanged],
     'C11': [mon_c11, mon_rejected_unchanged],
-    'C17': [mon_c17, M2.mon_c17_f2],
+    'C17': [mon_c17, M2.guarded(M2.mon_c17_f2)],
     'C20': [mon_c20, mon_rejected_unchanged],
 }
 
